@@ -12,7 +12,8 @@
 //! families use the 14 lines of the base grammar).
 //! *Configurations* (files in listed order):
 //!   quick    = 1 file x (1 | 2 lines), 2 files x 1 line on every pair of sites (same site:
-//!              both listed orders)                                           (13 860 configs)
+//!              both listed orders), 3 files x 1 line on the four prefix-sibling chains
+//!              (outer, test|tests, below the other sibling)               (24 836 configs)
 //!   thorough = quick + 2 files (2 lines, 1 line) + 3 files x 1 line          (~3.7e5 configs)
 //! *Operation sequences per configuration*: `new(all)` twice, `new(perm)` for every
 //! permutation that keeps same-site files in listed order, `new(∅)+add_file` in every such
@@ -227,6 +228,22 @@ fn configs(tier: Tier) -> Vec<Config> {
 						continue;
 					}
 					out.push(Config { files: vec![fs(s1, &[a]), fs(s2, &[b])] });
+				}
+			}
+		}
+	}
+	if tier == Tier::Quick {
+		// three files along a "prefix-sibling chain": an outer file, a file in `test` (resp.
+		// `tests`) and a file *below* the sibling `tests` (resp. `test`) with none in the
+		// sibling itself — the second hop of the ancestor walk starts from a nested directory
+		for outer in ["", GLOBAL] {
+			for (sib, nested) in [("test", "tests/a"), ("tests", "test/a")] {
+				for a in &l14 {
+					for b in &l14 {
+						for c in &l14 {
+							out.push(Config { files: vec![fs(outer, &[a]), fs(sib, &[b]), fs(nested, &[c])] });
+						}
+					}
 				}
 			}
 		}
